@@ -887,7 +887,9 @@ class Enumerator:
             # @decorator whose result is a nested wrapper calling the
             # function: what runs is the wrapper, with the function bound
             # to the decorator's parameter
-            wnode, pname = wrapped
+            wnode, pname = wrapped[0], wrapped[1]
+            if len(wrapped) > 2:
+                st.env.update(wrapped[2])
             fsym = self.fresh(self.finfo.node, 'f')
             self.__dict__.setdefault('_decor_syms', set()).add(fsym.id)
             st.env[pname] = fsym
